@@ -546,7 +546,7 @@ func (vc *VC) isTransparent(fr *Frame, fn *ssa.Function) bool {
 			}
 		}
 	}
-	if n > 60 {
+	if n > 200 {
 		return false
 	}
 	// no recursion
